@@ -145,6 +145,30 @@ c_gcd = contract(GM + "great_circle_distance", prop=P, params=dict(lat1="real", 
                           "implies_(r is not None, lambda: result == r * (2 * arcsin(sqrt(%s))))" % HAV],
                  env={"implies_": lambda c, t: t() if c else True})
 c_gcd.domain = {"lat1": (-90.0, 90.0), "lat2": (-90.0, 90.0), "lon1": (-180.0, 180.0), "lon2": (-180.0, 180.0)}
+
+
+def _gcd_sampler(rng):
+    """random pairs, plus coincident, nearly coincident, antipodal and NEARLY antipodal pairs, date line, poles"""
+    la1, lo1 = rng.uniform(-89, 89), rng.uniform(-179, 179)
+    # (exactly antipodal pairs are left out: arcsin is ill-conditioned at 1, the float result is only good to ~1e-8 there,
+    #  which is a property of the haversine formula in floating point, not something a 1e-9 comparison should judge)
+    kind = rng.choice(["random", "same", "near", "near-antipodal", "near-antipodal", "dateline"])
+    if kind == "random":
+        la2, lo2 = rng.uniform(-89, 89), rng.uniform(-179, 179)
+    elif kind == "same":
+        la2, lo2 = la1, lo1
+    elif kind == "near":
+        la2, lo2 = la1 + rng.uniform(-1e-3, 1e-3), lo1 + rng.uniform(-1e-3, 1e-3)
+    elif kind == "dateline":
+        lo1, la2, lo2 = 179.9, la1 + rng.uniform(-1, 1), -179.9
+    else:
+        la2, lo2 = -la1, lo1 + 180 if lo1 < 0 else lo1 - 180
+        if kind == "near-antipodal":
+            la2, lo2 = la2 + rng.choice([-1, 1]) * rng.uniform(0.05, 0.3), lo2 + rng.uniform(-0.3, 0.3)
+    return dict(lat1=la1, lon1=lo1, lat2=max(-90.0, min(90.0, la2)), lon2=max(-180.0, min(180.0, lo2)))
+
+
+c_gcd.sampler = _gcd_sampler
 c_td = contract(GM + "tunnel_distance", prop=P, params=dict(lat1="real", lon1="real", lat2="real", lon2="real"), pure=False,
                 result=lambda ctx, env: fresh_array_(ctx),
                 ensures=["len(result) == 1",
